@@ -35,17 +35,18 @@ def parseHost (k t : String) : Option Host := do
   if k == "reg" then some (.regName t) else if k == "v4" then some (.ipv4 t)
   else if k == "v6" then some (.ipv6 t) else none
 
-/-- `conn addr <host|None> <port|None>`                      connect_upstream's address formation
+/-- `conn addr <pool 0|1> <host|None> <port|None>`           connect_upstream's address formation
     `conn route <isV4 0|1> <isV6 0|1> <host> <port> <srcHost|None> <srcPort>`   new_socket_connection
-    `conn handle <seg>…`                                     first request through handler + proxy plugin
+    `conn handle <pool 0|1> <seg>…`                          first request through handler + proxy plugin
+                                                             (pool: --enable-conn-pool, also prints the key given to acquire)
     `conn spec <form> <scheme> <user|None> <pass|None> <reg|v4|v6> <hosttext> <port|None> <pathq>`
         grammar guard and rendering of the specification-side `Target` -/
 def drv (args : List String) : String :=
   match args with
-  | ["addr", h, p] =>
+  | ["addr", pool, h, p] =>
     match optBytes h, optInt p with
     | some h, some p =>
-      match connectUpstream h p with
+      match connectUpstreamP (pool == "1") h p with
       | .ok a => s!"ok {hex a.host} {a.port}"
       | .error e => "exc " ++ errStr e
     | _, _ => "bad-op"
@@ -59,9 +60,14 @@ def drv (args : List String) : String :=
       | .name h p src => s!"name {hex h} {p} src=" ++
           (match src with | none => "None" | some (a, q) => s!"{hex a}:{q}")
     | _, _, _, _ => "bad-op"
-  | "handle" :: segs =>
+  | "handle" :: pool :: segs =>
     match Px.Parser.unhexAll segs with
-    | some segs => outcomeStr (handleFirst {} segs)
+    | some segs =>
+      let acq := match (handleFirst {} (pool == "1") segs), pool == "1" with
+        | .connected a _ _, true => s!" acquire={hex a.host}:{a.port}"
+        | _, true => " acquire=None"
+        | _, false => ""
+      outcomeStr (handleFirst {} (pool == "1") segs) ++ acq
     | none => "bad-op"
   | ["spec", form, scheme, user, pass, hk, ht, port, pathq] =>
     match parseForm form, unhex scheme, optBytes user, optBytes pass, parseHost hk ht, unhex pathq with
